@@ -515,6 +515,7 @@ func Run(c *core.Ctx) {
 	h.streamErrMatrix()
 	h.streamLayout()
 	h.streamRand()
+	h.streamReeval()
 }
 
 func (h *harness) begin(stream string, idx int, text string) { h.c.Begin(0, stream, idx, text) }
